@@ -143,7 +143,7 @@ func c07R2(c *Ctx) {
 					if cal == doReject && cal != nil {
 						rejects++
 					}
-					if cal != nil && (cal.Name() == "handleStateError" || cal.Name() == "processReject") {
+					if cal != nil && (p.isStateErrorExit(cal) || rejectProcessor(p) == cal) {
 						stateErr = true
 					}
 				}
@@ -334,4 +334,26 @@ func c07R4(c *Ctx) {
 	})
 	c.Check(okVer && okCnt == 2, FuncName(ssr), p.Pos(ssr.Pos()), "should-send-reset", "initiator offers a reset only from FIX.4.1 on and only when both counters are 1", fmt.Sprintf("shouldSendReset: version test below FIX.4.1=%v, counters compared with 1: %d of 2", okVer, okCnt))
 	_ = types.Universe
+}
+
+// rejectProcessor: the function type-switching over targetTooLow and incorrectBeginString.
+func rejectProcessor(p *Prog) *ssa.Function {
+	fs := p.roleFns("reject-processor", "processReject", func(fn *ssa.Function) bool {
+		tl, ibs := false, false
+		ForEachInstr(fn, func(in ssa.Instruction) {
+			if ta, ok := in.(*ssa.TypeAssert); ok {
+				switch typeName(ta.AssertedType) {
+				case "targetTooLow":
+					tl = true
+				case "incorrectBeginString":
+					ibs = true
+				}
+			}
+		})
+		return tl && ibs
+	})
+	if len(fs) == 1 {
+		return fs[0]
+	}
+	return nil
 }
